@@ -113,8 +113,16 @@ Definition wf_field0 (E : list cplan2) (i : nat) (flexible : bool) (f : fplan2) 
                  && (codec_eqb (f2_w f) (f2_r f) || val_eqb (f2_default f) VNull)
      end.
 
+(* a tagged float64 field is outside the model: the writer elides a tagged field whose value ==
+   its default, and Python's == identifies -0.0 with 0.0 while values here are bit patterns *)
+Definition no_tagged_float (f : fplan2) : bool :=
+  match f2_tag f, f2_w f with
+  | Some _, CPrim PF64 | Some _, CArr _ (CPrim PF64) => false
+  | _, _ => true
+  end.
+
 Definition wf_field (E : list cplan2) (i : nat) (flexible : bool) (f : fplan2) : bool :=
-  wf_field0 E i flexible f && arr_items_eq (f2_w f) (f2_r f).
+  wf_field0 E i flexible f && (arr_items_eq (f2_w f) (f2_r f) && no_tagged_float f).
 
 Definition wf_class (E : list cplan2) (i : nat) (c : cplan2) : bool :=
   forallb (wf_field E i (c2_flexible c)) (c2_fields c) && nodup_z (tags_of (c2_fields c)).
